@@ -68,6 +68,16 @@ Proof.
   pose proof (land_255_lt n). lia.
 Qed.
 
+Lemma wf_bytes_firstn n l : wf_bytes l = true -> wf_bytes (firstn n l) = true.
+Proof.
+  unfold wf_bytes. revert l.
+  induction n as [|n IH]; intros [|x l] H; cbn [firstn forallb] in *; try reflexivity.
+  apply andb_true_iff in H as [H1 H2]. rewrite H1. cbn. apply IH. exact H2.
+Qed.
+
+Lemma wf_bytes_app a b : wf_bytes (a ++ b) = wf_bytes a && wf_bytes b.
+Proof. apply forallb_app. Qed.
+
 Definition st8 := (N * N * N * N * N * N * N * N)%type.
 
 Definition ch (x y z : N) : N := N.lxor z (N.land x (N.lxor y z)).
@@ -278,13 +288,7 @@ Theorem sha512_wf m : wf_bytes (sha512 m) = true.
 Proof. apply st8_bytes_wf. Qed.
 
 Theorem sha384_wf m : wf_bytes (sha384 m) = true.
-Proof.
-  unfold sha384. generalize (st8_bytes_wf 8 (blocks512 (words64 (pad512 m)) H384)).
-  generalize (st8_bytes 8 (blocks512 (words64 (pad512 m)) H384)). intro l.
-  unfold wf_bytes. generalize 48%nat. intro n. revert l.
-  induction n as [|n IH]; intros [|x l] H; cbn [firstn forallb] in *; try reflexivity.
-  apply andb_true_iff in H as [H1 H2]. rewrite H1. cbn. apply IH. exact H2.
-Qed.
+Proof. unfold sha384. apply wf_bytes_firstn, st8_bytes_wf. Qed.
 
 (* ================= test vectors (FIPS 180-4 examples; 1000 x 'a' checked against python hashlib) ================= *)
 
